@@ -35,7 +35,7 @@ theorem size_eq (H : HInv T L D o Inv rr ℓ path he) :
     he.size = hkeyElementsPrefixSize + HkeyElems.elemSizes o he.elems := H.2.2.2.2.1
 
 theorem elemOk (H : HInv T L D o Inv rr ℓ path he) {i hk : Nat} {el : MElemF α}
-    (hi : he.hkeys[i]? = some hk) (hel : he.elems[i]? = some el) : ElemOk T L D o Inv ℓ path hk el :=
+    (hi : he.hkeys[i]? = some hk) (hel : he.elems[i]? = some el) : MElemOk T L D o Inv ℓ path hk el :=
   H.2.2.2.2.2 i hk el hi hel
 
 theorem hkey_at (H : HInv T L D o Inv rr ℓ path he) {i : Nat} {el : MElemF α}
